@@ -843,7 +843,7 @@ def diff_hint(a, b):
     x, y = a.split(";"), b.split(";")
     for i, (p, q) in enumerate(zip(x, y)):
         if p != q:
-            return "entry %d: %s -> %s" % (i, p[:80], q[:80])
+            return "entry %d: %s -> %s" % (i, p[:160], q[:160])
     return "%d entries -> %d entries" % (len(x), len(y))
 
 
@@ -953,4 +953,345 @@ class WellFormedX(Oracle):
                         # equally named opaque siblings that are printed as an array of objects and values
                         tag = "json-opaq-array-attr"
                     return (tag, "printed JSON is not RFC 8259 JSON (%s): %s: %r" % (fam, e, data.decode("utf-8", "replace")[max(0, getattr(e, "pos", 0) - 120):][:200]))
+        return None
+
+
+# ------------------------------------------------------------------------------------------------
+# value types: every built-in type and the derived types with a dedicated plugin, in every role
+# ------------------------------------------------------------------------------------------------
+class TSpec:
+    """one value type: its YANG text (valid in the modules ta and tb: references only pb:, inet:, yang:, nacm:), lexical
+    sample values with pairwise different canonical forms (XML text; prefixes pa / pb / pc are declared on every top-level
+    element), a default value, and whether it may be a list key"""
+
+    def __init__(self, tid, ytype, vals, dflt=None, key=True, meta=True):
+        self.tid, self.ytype, self.vals, self.dflt, self.key, self.meta = tid, ytype, vals, dflt, key, meta
+
+
+TSPECS = [
+    TSpec("int8", "int8", ["-128", "0", "127", "-1"], "-5"),
+    TSpec("int16", "int16", ["-32768", "7", "32767"], "-300"),
+    TSpec("int32", "int32", ["-2147483648", "0", "2147483647"], "70000"),
+    TSpec("int64", "int64", ["-9223372036854775808", "42", "9223372036854775807"], "-5000000000"),
+    TSpec("uint8", "uint8", ["0", "255", "17"], "200"),
+    TSpec("uint16", "uint16", ["0", "65535", "300"], "40000"),
+    TSpec("uint32", "uint32", ["0", "4294967295", "65536"], "3000000000"),
+    TSpec("uint64", "uint64", ["0", "18446744073709551615", "9007199254740993"], "10000000000"),
+    TSpec("dec64", "decimal64 { fraction-digits 2; }", ["-92233720368547758.08", "3.14", "0.5", "92233720368547758.07"], "2.5"),
+    TSpec("dec64b", "decimal64 { fraction-digits 18; }", ["-9.223372036854775808", "0.000000000000000001", "1.5"], "0.1"),
+    TSpec("string", "string", ["a b", "a<b&c>\"d", "it's", "é€", " lead", "x"], "dflt val"),
+    TSpec("strpat", "string { length \"1..8\"; pattern '[a-z0-9]+'; }", ["abc", "a1", "zzzzzzzz"], "dd"),
+    TSpec("boolean", "boolean", ["true", "false"], "true"),
+    TSpec("enum", "pb:t-enum", ["zero", "one", "x-y.z", "two words"], "one"),
+    TSpec("bits", "pb:t-bits", ["a", "a c", "b c d", "d"], "b"),
+    TSpec("binary", "binary", ["YQ==", "AAEC/w==", "aGVsbG8gd29ybGQ=", "AA=="], "ZGY="),
+    TSpec("binlen", "binary { length \"2..4\"; }", ["YWI=", "AAEC", "/////w=="], "ZGY="),
+    TSpec("empty", "empty", [""], None, key=False),
+    TSpec("ident", "identityref { base pb:b-base; }", ["pb:b-one", "pc:c-one", "pa:a-one", "pa:shared", "pb:shared", "pc:shared"], "pb:b-two"),
+    TSpec("ip4", "inet:ipv4-address", ["192.168.0.1", "10.0.0.1%eth0", "255.255.255.255"], "127.0.0.1"),
+    TSpec("ip4nz", "inet:ipv4-address-no-zone", ["192.168.0.1", "0.0.0.0", "10.20.30.40"], "127.0.0.1"),
+    TSpec("ip6", "inet:ipv6-address", ["2001:DB8::1", "fe80::1%eth0", "::"], "::1"),
+    TSpec("ip6nz", "inet:ipv6-address-no-zone", ["2001:db8::1", "::", "FF02::2"], "::1"),
+    TSpec("ip4pfx", "inet:ipv4-prefix", ["10.1.2.3/8", "192.168.1.0/24", "0.0.0.0/0", "1.2.3.4/32"], "172.16.0.0/12"),
+    TSpec("ip6pfx", "inet:ipv6-prefix", ["2001:db8:ffff::1/32", "::/0", "fe80::/10"], "2001:db8:1::/48"),
+    TSpec("ipaddr", "inet:ip-address", ["192.168.0.1", "2001:db8::1", "10.0.0.1%eth0"], "::1"),
+    TSpec("ipnz", "inet:ip-address-no-zone", ["192.168.0.1", "2001:db8::1"], "127.0.0.1"),
+    TSpec("ippfx", "inet:ip-prefix", ["10.0.0.0/8", "2001:db8::/32"], "0.0.0.0/0"),
+    TSpec("host", "inet:host", ["192.168.0.1", "example.com", "2001:db8::1"], "localhost"),
+    TSpec("dt", "yang:date-and-time", ["2023-01-01T12:00:00Z", "2023-01-01T12:00:00.123+02:00", "1999-12-31T23:59:59-05:00"],
+          "2000-01-01T00:00:00Z"),
+    TSpec("hex", "yang:hex-string", ["01:AB:cd", "ff", "00:00"], "0a"),
+    TSpec("mac", "yang:mac-address", ["00:1B:44:11:3A:b7", "ff:ff:ff:ff:ff:ff"], "00:00:00:00:00:00"),
+    TSpec("phys", "yang:phys-address", ["00:1b", "AA:bb:cc:dd:ee:ff:00:11"], "00"),
+    TSpec("uuid", "yang:uuid", ["F81D4FAE-7DEC-11D0-A765-00A0C91E6BF6", "00000000-0000-0000-0000-000000000000"],
+          "12345678-1234-1234-1234-123456789abc"),
+    TSpec("xpath", "yang:xpath1.0", ["/pa:g-string/pa:v[. = 'x']", "count(/pb:nothing) + 1", "1 div 2"], "1 + 1"),
+    TSpec("nii", "nacm:node-instance-identifier", ["/pa:g-uint8/pa:l[pa:k='5']/pa:x", "/pa:g-string"], None),
+    TSpec("iid", "instance-identifier { require-instance false; }", None, None),
+    TSpec("unionfv", "union { type uint8; type boolean; type string; }", ["200", "true", "text", "300"], "7"),
+    TSpec("unionir", "union { type identityref { base pb:b-base; } type instance-identifier { require-instance false; } type int32; }",
+          ["pb:b-one", "/pa:g-int8/pa:v", "-7", "pc:shared"], "pb:b-two"),
+]
+
+TYPES_TB = """module tb { yang-version 1.1; namespace "urn:verif:tb"; prefix pb;
+  import ietf-yang-metadata { prefix md; }
+  import ietf-inet-types { prefix inet; }
+  import ietf-yang-types { prefix yang; }
+  import ietf-netconf-acm { prefix nacm; }
+  identity b-base;
+  identity b-one { base b-base; }
+  identity b-two { base b-base; }
+  identity shared { base b-base; }
+  typedef t-enum { type enumeration { enum zero; enum one { value 7; } enum x-y.z; enum "two words"; } }
+  typedef t-bits { type bits { bit a; bit b { position 5; } bit c { position 40; } bit d; } }
+%s}
+"""
+TYPES_TC = """module tc { yang-version 1.1; namespace "urn:verif:tc"; prefix pc;
+  import tb { prefix pb; }
+  identity c-one { base pb:b-base; }
+  identity shared { base pb:b-base; }
+}
+"""
+TYPES_TA = """module ta { yang-version 1.1; namespace "urn:verif:ta"; prefix pa;
+  import ietf-yang-metadata { prefix md; }
+  import ietf-inet-types { prefix inet; }
+  import ietf-yang-types { prefix yang; }
+  import ietf-netconf-acm { prefix nacm; }
+  import tb { prefix pb; }
+  import tc { prefix pc; }
+  identity a-one { base pb:b-base; }
+  identity shared { base pb:b-base; }
+%s}
+"""
+TYPES_NS = ' xmlns="urn:verif:ta" xmlns:pa="urn:verif:ta" xmlns:pb="urn:verif:tb" xmlns:pc="urn:verif:tc"'
+
+
+def types_modules():
+    """the module family: tb (base identity, typedefs, one annotation an-<t> of every type and anu-<t> = union of it and
+    string), tc (identities), ta (annotations own-<t>, and per type a container g-<t>: leaf, leaf with default, leaf-list,
+    list keyed by it, leafrefs to the leaf / the leafref / the leaf-list / the key, a list keyed by a leafref, unions with
+    it as fixed / variable size member, a union of leafref + identityref + instance-identifier, a union leaf with default)"""
+    ann_b, ann_a, groups = [], [], []
+    T = lambda s: "type %s" % s.ytype if s.ytype.rstrip().endswith("}") else "type %s;" % s.ytype
+    for s in TSPECS:
+        if s.meta:
+            ann_b.append("  md:annotation an-%s { %s }\n" % (s.tid, T(s)))
+            ann_b.append("  md:annotation anu-%s { type union { %s type string; } }\n" % (s.tid, T(s)))
+            ann_a.append("  md:annotation own-%s { %s }\n" % (s.tid, T(s)))
+        g = "  container g-%s {\n    leaf v { %s }\n" % (s.tid, T(s))
+        if s.dflt is not None:
+            g += "    leaf d { %s default \"%s\"; }\n" % (T(s), s.dflt)
+        g += "    leaf-list ll { %s }\n" % T(s)
+        if s.key:
+            g += "    list l { key k; leaf k { %s } leaf x { type string; } }\n" % T(s)
+            g += "    leaf rk { type leafref { path \"../l/k\"; } }\n"
+        g += "    leaf r { type leafref { path \"../v\"; } }\n"
+        g += "    leaf rr { type leafref { path \"../r\"; } }\n"
+        g += "    leaf-list rl { type leafref { path \"../ll\"; } }\n"
+        g += "    list lr { key k; leaf k { type leafref { path \"../../ll\"; } } leaf x { type string; } }\n"
+        if s.dflt is not None:
+            g += "    leaf rd { type leafref { path \"../v\"; require-instance false; } default \"%s\"; }\n" % s.dflt
+            g += "    leaf ud { type union { %s type string; } default \"%s\"; }\n" % (T(s), s.dflt)
+        g += "    leaf u1 { type union { %s type string; } }\n" % T(s)
+        g += "    leaf u2 { type union { type uint8; %s type string; } }\n" % T(s)
+        g += ("    leaf u3 { type union { type leafref { path \"../v\"; } type identityref { base pb:b-base; } "
+              "type instance-identifier { require-instance false; } } }\n")
+        g += "  }\n"
+        groups.append(g)
+    return TYPES_TB % "".join(ann_b), TYPES_TC, TYPES_TA % ("".join(ann_a) + "".join(groups))
+
+
+def _q(v):
+    """an XPath literal for v"""
+    return "'%s'" % v if "'" not in v else '"%s"' % v
+
+
+class RoundTripTypes(Oracle):
+    """C01 at the API level for VALUE TYPES: a module family (three modules, three prefixes) in which every built-in type and
+    every derived inet / yang / nacm type with a dedicated plugin occurs as leaf, list key, leaf-list, leafref target and
+    leafref (chains, leafref keys), union member (with fixed-size and variable-size members; a union of leafref,
+    identityref and instance-identifier), metadata annotation type (annotation module = node module and another one;
+    union-typed annotations), and default value; identityref values of three modules; instance-identifiers pointing at list
+    instances with keys of these types. A valid instance (XML) is parsed with validation and parse-only; each tree is
+    printed and parsed back as XML, JSON and LYB (explicit, report-all, report-all-tagged, trim; shrunk and formatted) and
+    through the chain XML -> JSON -> LYB -> XML; the result must be the same tree: dump with canonical values, default
+    flags and metadata, lyd_compare_siblings(FULL_RECURSION | DEFAULTS), metadata comparison of every node pair."""
+    name = "roundtriptypes"
+    driver = "t_doc"
+
+    def values(self, s, present):
+        if s.tid != "iid":
+            return list(s.vals)
+        out = ["/pa:g-string/pa:v", "/pa:g-uint8/pa:l[pa:k='9']/pa:x", "/pa:g-enum/pa:ll[.='zero']"]
+        for tid, keys, lls in present:
+            for k in keys[:2]:
+                out.append("/pa:g-%s/pa:l[pa:k=%s]" % (tid, _q(k)))
+            for v in lls[:1]:
+                out.append("/pa:g-%s/pa:ll[.=%s]" % (tid, _q(v)))
+        return sorted(set(out), key=out.index)
+
+    def group_xml(self, rng, s, vals):
+        A = yanggen.xml_attr
+        X = yanggen.xml_text
+        present = {"keys": [], "ll": []}
+
+        def metas(p=0.3):
+            out, used = "", set()
+            for _ in range(3):
+                if rng.random() < p:
+                    ms = rng.choice([m for m in TSPECS if m.meta])
+                    mv = self.values(ms, []) if ms.tid == "iid" else ms.vals
+                    kind = rng.choice(["pb:an-", "pb:anu-", "pa:own-"])
+                    nm = kind + ms.tid
+                    if nm in used:
+                        continue
+                    used.add(nm)
+                    v = rng.choice(mv + (["free text"] if kind == "pb:anu-" else []))
+                    out += ' %s="%s"' % (nm, A(v))
+            return out
+
+        def el(name, v, m=""):
+            return "<%s%s>%s</%s>" % (name, m, X(v), name) if v != "" else "<%s%s/>" % (name, m)
+
+        body = ""
+        v = rng.choice(vals) if rng.random() < 0.8 else None
+        if v is not None:
+            body += el("v", v, metas())
+        if s.dflt is not None and rng.random() < 0.4:
+            body += el("d", rng.choice([s.dflt] + vals))       # (no metadata: trim mode drops the node when it holds the default)
+        ll = rng.sample(vals, rng.randrange(0, len(vals) + 1))
+        for x in ll:
+            body += el("ll", x, metas(0.25))
+        keys = []
+        if s.key:
+            keys = rng.sample(vals, rng.randrange(0, min(len(vals), 3) + 1))
+            for k in keys:
+                body += "<l%s>%s%s</l>" % (metas(0.25), el("k", k), el("x", "row") if rng.random() < 0.5 else "")
+            if keys and rng.random() < 0.6:
+                body += el("rk", rng.choice(keys))
+        r = None
+        if v is not None and rng.random() < 0.7:
+            r = v
+            body += el("r", v, metas(0.15))
+        if r is not None and rng.random() < 0.6:
+            body += el("rr", r)
+        for x in rng.sample(ll, rng.randrange(0, len(ll) + 1)):
+            body += el("rl", x)
+        for x in rng.sample(ll, rng.randrange(0, min(len(ll), 2) + 1)):
+            body += "<lr>%s</lr>" % el("k", x)
+        if s.dflt is not None:
+            if rng.random() < 0.3:
+                body += el("rd", rng.choice([s.dflt] + vals))
+            if rng.random() < 0.3:
+                body += el("ud", rng.choice([s.dflt, "other text"] + vals))
+        if rng.random() < 0.6:
+            body += el("u1", rng.choice(vals + ["free text"]), metas(0.15))
+        if rng.random() < 0.6:
+            body += el("u2", rng.choice(vals + ["200", "free text"]))
+        if rng.random() < 0.6:
+            # (an identity of the node's own module is printed without prefix / module name, legally; where the leafref
+            # target accepts a bare name as value the re-parsed union would resolve to the leafref member: not generated)
+            own = [] if s.tid in ("string", "host", "xpath", "unionfv", "nii", "uuid") else ["pa:a-one"]
+            body += el("u3", rng.choice(([v] if v is not None else []) + ["pb:b-one", "pc:shared", "/pa:g-%s/pa:v" % s.tid] + own))
+        present["keys"], present["ll"] = keys, ll
+        if not body:
+            body = el("v", vals[0])              # (an empty non-presence container is a default node and is not printed)
+        return "<g-%s%s%s>%s</g-%s>" % (s.tid, TYPES_NS, metas(0.2), body, s.tid), present
+
+    V = PARSE_STRICT
+    CHECKS = [  # (source tree, format, print options, parse options, validation options, mode E exact / F default flags aside)
+        (0, "x", SIB | PRINT_SHRINK, PARSE_STRICT, VAL_PRESENT, "E"), (0, "x", SIB, PARSE_STRICT, VAL_PRESENT, "E"),
+        (0, "j", SIB | PRINT_SHRINK, PARSE_STRICT, VAL_PRESENT, "E"), (0, "j", SIB, PARSE_STRICT, VAL_PRESENT, "E"),
+        (0, "b", SIB, PARSE_STRICT, VAL_PRESENT, "E"),
+        (0, "x", SIB | PRINT_SHRINK | WD_IMPL_TAG, PARSE_STRICT, VAL_PRESENT, "E"),
+        (0, "j", SIB | PRINT_SHRINK | WD_IMPL_TAG, PARSE_STRICT, VAL_PRESENT, "E"),
+        # (report-all-tagged also tags explicit nodes that hold the default value: flags aside)
+        (0, "x", SIB | PRINT_SHRINK | WD_ALL_TAG, PARSE_STRICT, VAL_PRESENT, "F"),
+        (0, "j", SIB | PRINT_SHRINK | WD_ALL_TAG, PARSE_STRICT, VAL_PRESENT, "F"),
+        (0, "x", SIB | PRINT_SHRINK | WD_ALL, PARSE_STRICT, VAL_PRESENT, "F"), (0, "j", SIB | PRINT_SHRINK | WD_ALL, PARSE_STRICT, VAL_PRESENT, "F"),
+        (0, "b", SIB | WD_ALL, PARSE_STRICT, VAL_PRESENT, "E"),
+        (0, "x", SIB | PRINT_SHRINK | WD_TRIM, PARSE_STRICT, VAL_PRESENT, "F"), (0, "j", SIB | PRINT_SHRINK | WD_TRIM, PARSE_STRICT, VAL_PRESENT, "F"),
+        (1, "x", SIB | PRINT_SHRINK, PARSE_ONLY | PARSE_STRICT, 0, "E"), (1, "j", SIB | PRINT_SHRINK, PARSE_ONLY | PARSE_STRICT, 0, "E"),
+        (1, "j", SIB, PARSE_ONLY | PARSE_STRICT, 0, "E"), (1, "b", SIB, PARSE_ONLY | PARSE_STRICT, 0, "E"),
+    ]
+
+    def gen(self, rng, tier, scale=1.0):
+        tb, tc, ta = types_modules()
+        L = []
+        n = self.n(tier, 150, 2500, scale)
+        for i in range(n):
+            # every type is selected in turn, with a few random others; the instance-identifier group sees their instances
+            chosen = [TSPECS[i % len(TSPECS)]] + rng.sample(TSPECS, rng.randrange(2, 6))
+            seen, groups = set(), []
+            for s in chosen:
+                if s.tid not in seen and s.tid != "iid":
+                    seen.add(s.tid)
+                    groups.append(s)
+            parts, present = [], []
+            for s in groups:
+                x, p = self.group_xml(rng, s, list(s.vals))
+                parts.append((s, x))
+                present.append((s.tid, p["keys"], p["ll"]))
+            iid = [s for s in TSPECS if s.tid == "iid"][0]
+            x, _ = self.group_xml(rng, iid, self.values(iid, present))
+            parts.append((iid, x))
+            parts.sort(key=lambda p: [t.tid for t in TSPECS].index(p[0].tid))
+            data = "".join(x for _, x in parts)
+            s = Script()
+            s.ctx(searchdir=TEST_MODULES)
+            s.mod(tb)
+            s.mod(tc)
+            s.mod(ta)
+            s.load("ietf-netconf-with-defaults")
+            s.parse(0, "x", data, popts=PARSE_STRICT, vopts=VAL_PRESENT)
+            s.parse(1, "x", data, popts=PARSE_ONLY | PARSE_STRICT, vopts=0)
+            s.add("xdump", "t0")
+            s.add("xdump", "t1")
+            spec = []
+            for src, fmt, po, pp, vo, mode in self.CHECKS:
+                s.add("xrt", "t%d" % src, "t2", fmt, po, pp, vo)
+                s.add("xcmp", "t%d" % src, "t2")
+                s.add("xdump", "t2")
+                spec.append("%d%s/%d/%s" % (src, fmt, po, mode))
+            # the chain XML -> tree -> JSON -> tree -> LYB -> tree -> XML -> tree, validated and parse-only
+            for src, pp, vo in ((0, PARSE_STRICT, VAL_PRESENT), (1, PARSE_ONLY | PARSE_STRICT, 0)):
+                s.add("xrt", "t%d" % src, "t3", "j", SIB | PRINT_SHRINK, pp, vo)
+                s.add("xrt", "t3", "t4", "b", SIB, pp, vo)
+                s.add("xrt", "t4", "t2", "x", SIB | PRINT_SHRINK, pp, vo)
+                s.add("xcmp", "t%d" % src, "t2")
+                s.add("xdump", "t2")
+                spec.append("%dc/0/C" % src)
+            L.append("doc\t#y types 7 %s\t" % ";".join(spec) + "\t".join(s.cmds))
+        return L
+
+    @staticmethod
+    def noflags(dump):
+        import re
+        return re.sub(r"(:(?:=[0-9a-f-]*|i)):d", r"\1:", dump)
+
+    def judge(self, line, out):
+        if crashed(out):
+            return (None, "crash: " + out)
+        r = results(out)[1:]
+        hdr = line.split("\t")[1].split(" ")
+        nsetup, spec = int(hdr[2]), hdr[3].split(";")
+        for x in r[:nsetup]:
+            if rc(x) != 0:
+                # the instance is valid by construction: a rejection is counted (check.py reports many of them as a failure)
+                self.skipped = getattr(self, "skipped", 0) + 1
+                self.last_reject = x
+                return None
+        base = [r[nsetup], r[nsetup + 1]]
+        k = nsetup + 2
+        for sp in spec:
+            kf, po, mode = sp.split("/")
+            src = int(kf[0])
+            if mode == "C":
+                rts, cmp_, dmp = r[k:k + 3], r[k + 3], r[k + 4]
+                k += 5
+                what = "types: chain JSON -> LYB -> XML from the %s tree" % ("validated" if src == 0 else "parse-only")
+                bad = [x for x in rts if rc(x) != 0]
+                rt = bad[0] if bad else "0"
+            else:
+                rt, cmp_, dmp = r[k], r[k + 1], r[k + 2]
+                k += 3
+                what = "types: %s tree, format %s, print opts %s" % ("validated" if src == 0 else "parse-only", kf[1], po)
+            if mode == "F":
+                ok = rc(rt) == 0 and cmp_.endswith(":0") and self.noflags(dmp) == self.noflags(base[src])
+            else:
+                ok = rc(rt) == 0 and cmp_ == "0:0" and dmp == base[src]
+            if ok:
+                continue
+            tag = None
+            if kf[1] in "bc" and rc(rt) != 0 and "invalid-lyb-union-value-no-matching-subtype-found" in rt:
+                # the LYB printer re-resolves the member type of a union value WITHOUT validation (lyb_union_print): a leafref
+                # member that was skipped for lack of a target instance is chosen, the value is printed (and kept in the tree)
+                # as that member, and the parser finds no member for it
+                tag = "lyb-union-member-reresolved"
+            if rc(rt) != 0:
+                return (tag, "print / parse back failed (%s): %s" % (what, rt))
+            a, b = (self.noflags(base[src]), self.noflags(dmp)) if mode == "F" else (base[src], dmp)
+            if a != b:
+                return (tag, "re-parsed tree differs (%s, dump): %s" % (what, diff_hint(a, b)))
+            return (tag, "re-parsed tree differs (%s): compare:metadata = %s" % (what, cmp_))
         return None
